@@ -40,6 +40,7 @@ PROPS["C04"] = {
         U("TestVerif_C04_Digest", "./pkg/vaa", R(40000), R(800000, shards=16, timeout=1500)),
         U("TestVerif_C04_Processor", "./pkg/processor", R(1500), R(40000, shards=16, timeout=1500)),
         U("TestVerif_C04_Contracts", "./pkg/vaa", R(1500), R(40000, shards=16, timeout=1500)),
+        U("TestVerif_C04_Concurrent", "./pkg/vaa", R(300), R(6000, shards=8, timeout=1500)),
     ],
     "pre": lambda work: extract_contracts(work),
 }
@@ -84,7 +85,8 @@ PROPS["C03"] = {
                     "the libp2p Run loop is not started; the two verifiers are the only state-changing entry points it calls for these message types"],
     "units": [U("TestVerif_C03_Observations", PROC, R(2500), R(50000, shards=16, timeout=1500)),
               U("TestVerif_C03_P2P", "./pkg/p2p", R(3000), R(80000, shards=16, timeout=1500)),
-              U("TestVerif_C03_HeartbeatTable", "./pkg/p2p", R(300), R(3000, shards=4, timeout=1200))],
+              U("TestVerif_C03_HeartbeatTable", "./pkg/p2p", R(300), R(3000, shards=4, timeout=1200)),
+              U("TestVerif_C03_HeartbeatTableConcurrent", "./pkg/common", R(100, shards=2), R(4000, shards=16, timeout=1200), race=True, replay_tries=4)],
 }
 
 PROPS["C13"] = {
@@ -96,7 +98,7 @@ PROPS["C13"] = {
     "assumptions": ["inputs are restricted to what producers can emit: non-nil messages with arbitrary (also nil) fields",
                     "the 30 s cleanup ticker of the Run loop is not awaited; cleanup is exercised by direct calls"],
     "units": [U("TestVerif_C13_Direct", PROC, R(3000), R(80000, shards=16, timeout=1500)),
-              U("TestVerif_C13_RunLoop", PROC, R(300), R(12000, shards=16, timeout=1500))],
+              U("TestVerif_C13_RunLoop", PROC, R(300, shrinktime="20s"), R(12000, shards=16, timeout=1500, shrinktime="30s"), wallclock_fps=["C13/run-loop-stalled"])],
 }
 
 PROPS["C14"] = {
@@ -219,6 +221,9 @@ PROPS["C19"] = {
               U("TestVerif_C19_FutureLookup", "./guardiansets", R(300, shards=2, timeout=900), R(6000, shards=16, timeout=1500), module=EX, race=True, crash_is_violation=True)],
 }
 PROPS["C07"]["units"].append(U("TestVerif_C07_ExplorerQuorum", "./processor", PLAIN, PLAIN, kind="plain", module=EX))
+PROPS["C07"]["units"].append(U("TestVerif_C07_ExplorerThreshold", "./processor", PLAIN, PLAIN, kind="plain", module=EX))
+PROPS["C06"]["units"].append(U("TestVerif_C06_ExplorerVerify", "./processor", R(1500), R(60000, shards=16, timeout=1500), module=EX))
+PROPS["C19"]["units"].append(U("TestVerif_C06_ExplorerVerify", "./processor", R(800), R(20000, shards=16, timeout=1500), module=EX))
 
 ALPH = "./pkg/alephium"
 PROPS["C11"] = {
